@@ -19,10 +19,12 @@ def main():
     checks = [pid]
     tier = "quick"
     wt_override = None
+    preview_log = None
     for i, a in enumerate(args):
         if a == "--checks": checks = args[i + 1].split(",")
         if a == "--tier": tier = args[i + 1]
         if a == "--wt": wt_override = args[i + 1]
+        if a == "--preview-log": preview_log = args[i + 1]
     wt = wt_override or "/tmp/wt_%s" % name
     out = os.path.join("/verif/seeded", name)
     os.makedirs(out, exist_ok=True)
@@ -50,7 +52,13 @@ def main():
     print(json.dumps(ran, indent=1))
     valid = ran["demo_without_change"] == "pass" and ran["demo_with_change"] == "fail" and suite_ok
     results = {}
-    if valid:
+    if valid and preview_log:
+        o = open(preview_log).read()
+        lines = [l for l in o.splitlines() if l.startswith(("VIOLATION", "KNOWN", "INCONCLUSIVE", checks[0] + " tier"))]
+        results[checks[0]] = {"exit": 1 if any(l.startswith("VIOLATION") for l in lines) else 0, "lines": lines[:12],
+                              "how": "VERIF_REPO=%s ./check %s (scratch worktree with the patch applied; /repo not touched)" % (wt, checks[0])}
+        print(checks[0], "\n  " + "\n  ".join(lines[:12]))
+    elif valid:
         rc, o = sh("git -C /repo status --short -- src")
         if o.strip():
             print("refusing: /repo has local changes"); sys.exit(2)
